@@ -92,6 +92,7 @@ def run(prop, tier, seed):
         "what": "every Factory.tla configuration run on the real classes to the model's horizon; the observed outcome (all node "
                 "counters, items per edge) must be one of the outcomes TLC found over all same-instant interleavings",
         "configurations": conf["checked"], "outcome_in_model_set": conf["matched"], "drift": conf["ndrift"],
+        "end_of_instant_snapshots_compared": conf.get("instants_checked", 0), "snapshots_in_model_set": conf.get("instants_matched", 0),
         "drift_samples": conf["drift"][:3], "model_outcome_sets": conf["model_outcome_sets"]}
     coverage["legA_skipped_exploration_budget"] = skipped
     if states:
